@@ -198,6 +198,29 @@ pub fn corpus(out: &mut Out, prop: &str) {
     ]);
 }
 
+/// deadlines within 500 ms of i64::MAX: EXPIRETIME's `saturating_add(500)` clamps there (hypothesis
+/// `Room` of `Props.C01Exec`). Redis' own `(expire + 500) / 1000` overflows a long long at that point, so
+/// the reference model has no say: these commands are compared with the executor transcription only.
+pub fn expiretime_edge_corpus(out: &mut Out, prop: &str) {
+    for back in [0i64, 1, 499, 500, 501, 1000] {
+        let mut s = reset(out, BASE_MS);
+        let mut seq: Vec<String> = vec![];
+        let steps = vec![
+            (false, Command::set(k("k"), s_("v"))),
+            (false, Command::PExpireAt(k("k"), i64::MAX - back)),
+            (true, Command::ExpireTime(k("k"))),
+            (false, Command::PExpireTime(k("k"))),
+            (false, Command::Pttl(k("k"))),
+        ];
+        for (xc_only, cmd) in steps {
+            seq.push(format!("{:?}", cmd));
+            s.xc_only = xc_only;
+            do_step(out, &mut s, &cmd, prop, &seq);
+        }
+    }
+    out.count("corpus:expiretime-near-i64-max");
+}
+
 /// every command that reads or writes an ABSOLUTE time, under every configuration of the executor's
 /// epoch fields (class "configuration": `simulation_start_epoch`, `simulation_start_epoch_ms`)
 pub fn epoch_corpus(out: &mut Out, prop: &str) {
@@ -316,6 +339,38 @@ pub fn scan_pass(out: &mut Out, rng: &mut Rng, rounds: u64) {
         }
         out.count("corpus:scan-count-nonpositive");
     }
+    // HSCAN converts field names AND values to Strings (`from_utf8_lossy` / `v.to_string()`): known
+    // finding `C01:hscan-reply-not-binary-safe` (HGET / HGETALL return the stored bytes)
+    {
+        let mut s = reset(out, BASE_MS);
+        let mut seq = vec![];
+        let c = Command::HSet(k("h"), vec![(s_("f"), SDS::new(vec![0xff, 0x00, 0x61]))]);
+        seq.push(format!("{:?}", c));
+        do_step(out, &mut s, &c, "C01", &seq);
+        let hs = Command::HScan { key: k("h"), cursor: 0, pattern: None, count: None };
+        seq.push(format!("{:?}", hs));
+        let ex = &mut s.ex;
+        let r = std::panic::catch_unwind(std::panic::AssertUnwindSafe(|| ex.execute(&hs))).ok();
+        let mut got: Vec<Vec<u8>> = vec![];
+        if let Some(RespValue::Array(Some(v))) = &r {
+            if let Some(RespValue::Array(Some(es))) = v.get(1) {
+                for e in es {
+                    if let RespValue::BulkString(Some(b)) = e {
+                        got.push(b.clone());
+                    }
+                }
+            }
+        }
+        let want = vec![b"f".to_vec(), vec![0xff, 0x00, 0x61]];
+        if got != want {
+            out.violation(
+                "C01:hscan-reply-not-binary-safe",
+                &format!("HSET h f <ff 00 61>; HSCAN h 0 returned {:?}, the stored field and value are {:?} (HGET returns the stored bytes)", got, want),
+                serde_json::json!({"sequence": seq}),
+            );
+        }
+        out.count("corpus:hscan-binary-value");
+    }
     for _ in 0..rounds {
         let mut s = reset(out, BASE_MS + rng.below(1000));
         let mut seq: Vec<String> = vec![];
@@ -381,6 +436,7 @@ pub fn run(a: &Args) {
     let mut rng = Rng::new(a.seed);
     corpus(&mut out, "C01");
     epoch_corpus(&mut out, "C01");
+    expiretime_edge_corpus(&mut out, "C01");
     let mut srng = Rng::new(a.seed ^ 0x5CA9);
     scan_pass(&mut out, &mut srng, (a.n / 10).clamp(30, 3000));
     // the data structures behind the commands, driven directly (`DS …` lines); its own stream, so
